@@ -125,9 +125,20 @@ class ResolveAssociateMapper(LokiIdentityMapper):
         if len(free_symbols) == len(indices):
             # If the provided indices are enough to bind free symbols,
             # we match them in sequence.
+            def _bind(section, index):
+                # A sub-range of the associated section stays inside that section:
+                # open bounds are taken from the selector, eg. with ``a => b(1:k)``
+                # ``a(:)`` is ``b(1:k)`` and ``a(2:)`` is ``b(2:k)``, not ``b(:)`` or ``b(2:)``
+                if not isinstance(index, sym.RangeIndex):
+                    return index
+                lower = section.lower if index.lower is None else index.lower
+                upper = section.upper if index.upper is None else index.upper
+                step = section.step if index.step is None else index.step
+                return sym.RangeIndex((lower, upper, step))
+
             it = iter(indices)
             return tuple(
-                next(it) if isinstance(e, sym.RangeIndex) else e
+                _bind(e, next(it)) if isinstance(e, sym.RangeIndex) else e
                 for e in expressions
             )
 
